@@ -70,8 +70,8 @@ func genWeight(t *rapid.T, max int) int {
 }
 
 // buildPool applies a generated history and returns the balancer plus the model.
-func buildPool(t *rapid.T, next http.Handler, maxW int) (*roundrobin.RoundRobin, []srv, []string, bool) {
-	rr, err := roundrobin.New(next)
+func buildPool(t *rapid.T, next http.Handler, maxW int, opts ...roundrobin.LBOption) (*roundrobin.RoundRobin, []srv, []string, bool) {
+	rr, err := roundrobin.New(next, opts...)
 	if err != nil {
 		t.Fatalf("New: %v", err)
 	}
@@ -97,6 +97,26 @@ func buildPool(t *rapid.T, next http.Handler, maxW int) (*roundrobin.RoundRobin,
 		poolScale = odd << rapid.IntRange(16, maxShift).Draw(t, "scaleShift")
 	}
 	nInit := rapid.IntRange(1, 6).Draw(t, "nservers")
+	if maxW > 64 && poolScale == 1 && rapid.IntRange(0, 11).Draw(t, "bigPool") == 0 {
+		// a big, mostly drained pool: hundreds of members, a handful of them with a positive weight
+		nBig := rapid.IntRange(250, 330).Draw(t, "nBig")
+		live := map[int]int{}
+		for k := rapid.IntRange(1, 4).Draw(t, "nLive"); k > 0; k-- {
+			live[rapid.IntRange(0, nBig-1).Draw(t, "livePos")] = rapid.IntRange(1, 5).Draw(t, "liveWeight")
+		}
+		for i := 0; i < nBig; i++ {
+			name := fmt.Sprintf("http://s%d", i)
+			if err := rr.UpsertServer(mustURL(name), roundrobin.Weight(1)); err != nil {
+				t.Fatalf("upsert: %v", err)
+			}
+			if err := rr.UpsertServer(mustURL(name), roundrobin.Weight(live[i])); err != nil {
+				t.Fatalf("upsert: %v", err)
+			}
+			model = append(model, srv{name, live[i]})
+		}
+		log = append(log, fmt.Sprintf("big-pool(%d members, positive weights at %v)", nBig, live))
+		nInit = 0
+	}
 	for i := 0; i < nInit; i++ {
 		name := fmt.Sprintf("http://s%d", i)
 		w := genWeight(t, maxW)
@@ -220,8 +240,17 @@ func TestC01_Windows(t *testing.T) {
 			seen = append(seen, r.URL.Scheme+"://"+r.URL.Host)
 			seenMu.Unlock()
 		})
-		rr, model, log, hist := buildPool(t, next, maxWeight())
-		viaHTTP := rapid.Bool().Draw(t, "viaServeHTTP")
+		// a share of the balancers has sticky sessions switched on and every request carries an
+		// affinity cookie that cannot be used (undecodable, or naming a non-member): such requests
+		// are balanced like any other
+		badCookie := ""
+		var opts []roundrobin.LBOption
+		if rapid.IntRange(0, 3).Draw(t, "sticky") == 0 {
+			opts = append(opts, roundrobin.EnableStickySession(roundrobin.NewStickySession("sid")))
+			badCookie = rapid.SampledFrom([]string{"sid=http://a.example:8080%zz", "sid=http://not-a-member", "sid=", "sid=%%%"}).Draw(t, "badCookie")
+		}
+		rr, model, log, hist := buildPool(t, next, maxWeight(), opts...)
+		viaHTTP := rapid.Bool().Draw(t, "viaServeHTTP") || badCookie != ""
 		sum, g := 0, 0
 		for _, s := range model {
 			sum += s.w
@@ -231,7 +260,11 @@ func TestC01_Windows(t *testing.T) {
 			if viaHTTP {
 				n := len(seen)
 				rec := httptest.NewRecorder()
-				rr.ServeHTTP(rec, httptest.NewRequest("GET", "http://client/x", nil))
+				req := httptest.NewRequest("GET", "http://client/x", nil)
+				if badCookie != "" {
+					req.Header.Set("Cookie", badCookie)
+				}
+				rr.ServeHTTP(rec, req)
 				if len(seen) == n {
 					if rec.Code < 500 {
 						t.Fatalf("no server selected but status %d (want an error status)", rec.Code)
@@ -343,6 +376,12 @@ func TestC01_Windows(t *testing.T) {
 		}
 		if g >= 1<<33 {
 			cl = append(cl, "gcd>=2^33")
+		}
+		if len(model) > 256 {
+			cl = append(cl, "more-than-256-members")
+		}
+		if badCookie != "" {
+			cl = append(cl, "sticky-on-with-unusable-cookie")
 		}
 		if hist {
 			cl = append(cl, "history-with-reweight-or-remove")
